@@ -92,6 +92,7 @@ type Conn struct {
 	serverName     string
 	clientProtocol string
 	workKey        []byte
+	workKeyMu      sync.Mutex // 保护 workKey：握手（establishKeys）写入与 Close 置零可能并发
 	cookieSecret   []byte // 随机生成的 cookie 密钥（Config.CookieSecret 为空时使用）
 
 	closeNotifySent bool
@@ -1283,8 +1284,11 @@ func (c *Conn) Close() error {
 			alertErr = fmt.Errorf("dtlcp: failed to send closeNotify alert (but connection was closed anyway): %w", err)
 		}
 	}
+	// Handshake 调用不计入 activeCall，可能仍在 establishKeys 中使用 workKey（见 workKeyMu）
+	c.workKeyMu.Lock()
 	setZero(c.workKey)
 	c.workKey = nil
+	c.workKeyMu.Unlock()
 
 	return alertErr
 }
